@@ -1541,6 +1541,66 @@ func (c *C14Case) runCLI(ctx *Ctx, o *Outcome, al align.Alignment) {
 		}},
 		job{"stats alleles", func() (string, bool) { return fmt.Sprintln(al.AvgAllelesPerSite()), true }},
 	)
+	for norm := 0; norm <= 4; norm++ {
+		for _, lg := range []bool{false, true} {
+			pc := []float64{0, 0.5, 1}[(norm+len(c.Aln.Names))%3]
+			a := fmt.Sprintf("compute pssm -n %d -c %v", norm, pc)
+			if lg {
+				a += " --log"
+			}
+			jobs = append(jobs, job{a, func() (string, bool) {
+				m, err := al.Pssm(lg, pc, norm)
+				if err != nil {
+					return "", false
+				}
+				var sb strings.Builder
+				for _, ch := range al.AlphabetCharacters() {
+					if _, ok := m[ch]; !ok {
+						return "", false
+					}
+					fmt.Fprintf(&sb, "\t%c", ch)
+				}
+				sb.WriteString("\n")
+				for i := 0; i < al.Length(); i++ {
+					fmt.Fprintf(&sb, "%d", i+1)
+					for _, ch := range al.AlphabetCharacters() {
+						fmt.Fprintf(&sb, "\t%.3f", m[ch][i])
+					}
+					sb.WriteString("\n")
+				}
+				return sb.String(), true
+			}})
+		}
+	}
+	for _, nogaps := range []bool{false, true} {
+		a := "diff --counts"
+		if nogaps {
+			a += " --no-gaps"
+		}
+		jobs = append(jobs, job{a, func() (string, bool) {
+			all, per := al.CountDifferences()
+			all = append([]string{}, all...)
+			sort.Strings(all)
+			var sb strings.Builder
+			for _, d := range all {
+				if !(nogaps && strings.Contains(d, "-")) {
+					sb.WriteString("\t" + d)
+				}
+			}
+			sb.WriteString("\n")
+			for i := range per {
+				nm, _ := al.GetSequenceNameById(i + 1)
+				sb.WriteString(nm)
+				for _, d := range all {
+					if !(nogaps && strings.Contains(d, "-")) {
+						fmt.Fprintf(&sb, "\t%d", per[i][d])
+					}
+				}
+				sb.WriteString("\n")
+			}
+			return sb.String(), true
+		}})
+	}
 	// character counts: of the alignment, per site, per sequence; all characters or one (present or not)
 	onlyCands := []string{"*", "*", "A", "-", "N", "G", "Q", "X", "L"}
 	for _, mode := range []string{"", " --per-sites", " --per-sequences"} {
